@@ -1003,6 +1003,10 @@ class Gen:
             # a side-effect-free getter of the contract's state: a field of the environment-reads record
             self.uses_reads = True
             return (f"envr.{e[1][1][1]}", self.reads[e[1][1][1]])
+        if e[0] == "path" and e[1] == ["i128", "MAX"]:
+            return (f"({2**127 - 1} : Int)", "i128")
+        if e[0] == "path" and e[1] == ["i128", "MIN"]:
+            return (f"(-{2**127} : Int)", "i128")
         if e[0] == "path" and e[1] == ["u32", "BITS"]:
             return ("(32 : Nat)", "u32")
         if e[0] == "path" and len(e[1]) == 2 and e[1][0] == "Rounding":
@@ -1498,6 +1502,10 @@ class Gen:
             if f == ("var", "Wad"):
                 return self.tr(e[2][0], env, lambda a, t: k(a, "Wad"), ret)
             raise Unsupported(f"call of {f} ({pure_err})")
+        if kind == "mcall" and self.strip(e[1])[0] == "var" and env.get(self.strip(e[1])[1], ("", ""))[1].startswith("Client:") \
+                and (self.cur_ns, env[self.strip(e[1])[1]][1][7:] + "_" + e[2]) in self.sigs:
+            cname = env[self.strip(e[1])[1]][1][7:] + "_" + e[2]
+            return self.tr(("call", ("var", cname), [("var", "e")] + list(e[3])), env, k, ret)
         if kind == "mcall" and self.strip(e[1])[0] == "call" and self.strip(e[1])[1][0] == "path" and len(self.strip(e[1])[1][1]) == 2 \
                 and self.strip(e[1])[1][1][1] == "new" and self.strip(e[1])[1][1][0].endswith("Client") \
                 and isinstance(getattr(self, "reads", {}).get(self.strip(e[1])[1][1][0] + "_" + e[2]), tuple):
@@ -1537,6 +1545,19 @@ class Gen:
                     got = None
                 if got is not None:
                     return k(got[0], got[1])
+                if (rt_, name) in self.PURE_M and args and not getattr(self, "_in_argeval", False):
+                    # the ARGUMENTS are computed (a call of a translated reader): evaluate them in order, then retry
+                    def goa(j_, env_):
+                        if j_ == len(args):
+                            self._in_argeval = True
+                            try:
+                                g2 = self.pure(("mcall", ("var", "$recv"), name, [("var", f"$a{x_}") for x_ in range(len(args))]),
+                                               dict(env_, **{"$recv": (r, rt_)}))
+                            finally:
+                                self._in_argeval = False
+                            return k(g2[0], g2[1])
+                        return self.tr(args[j_], env_, lambda a_, t_: goa(j_ + 1, dict(env_, **{f"$a{j_}": (a_, t_)})), ret)
+                    return goa(0, env)
                 if rt_.startswith("Option<") and name == "map" and len(args) == 1 and self.strip(args[0])[0] == "closure" \
                         and len(self.strip(args[0])[1]) == 1:
                     # `opt.map(|x| body)` with a body that computes (and may panic): a case split
@@ -1578,7 +1599,7 @@ class Gen:
         a = self.strip(a)
         if a[0] == "var" and (a[1] in ("e", "_e") or (a[1] in self.param_names and a[1] not in env)):
             return True
-        if a == ("mcall", ("var", "e"), "current_contract_address", []):
+        if a == ("mcall", ("var", "e"), "current_contract_address", []) and "current_contract_address" not in getattr(self, "reads", {}):
             return True
         return a[0] == "call" and a[1][0] == "path" and a[1][1][-1] == "new" and all(self.strip(x) in (("var", "e"), ("var", "_e")) for x in a[2])
 
@@ -1701,12 +1722,20 @@ class Gen:
                     return self.tr_stmts(stmts2[i:], env, k_end, ret)
             if s[0] == "let":
                 ini = self.strip(s[3])
-                if ini[0] == "call" and ini[1][0] == "path" and len(ini[1][1]) == 2 and ini[1][1][1] == "new" and ini[1][1][0].endswith("Client") \
-                        and any(k_.startswith(ini[1][1][0] + "_") for k_ in getattr(self, "reads", {})):
-                    # a cross-contract client: a handle; its calls are functions of the reads record that may panic
-                    for a_ in ini[2][1:]:
-                        self.pure(a_, env)    # the address it is built from must be a value we know
-                    return go(i + 1, dict(env, **{s[1]: ("", "Client:" + ini[1][1][0])}))
+                if ini[0] == "call" and ini[1][0] == "path" and len(ini[1][1]) >= 2 and ini[1][1][-1] == "new" and ini[1][1][-2].endswith("Client") \
+                        and (any(k_.startswith(ini[1][1][-2] + "_") for k_ in getattr(self, "reads", {}))
+                             or any(n_.startswith(ini[1][1][-2] + "_") for (_, n_) in self.sigs)):
+                    # a cross-contract client: a handle; its calls are functions of the reads record that may panic, or
+                    # declared stand-ins. The address it is built from is evaluated (it may panic), its value is the
+                    # contract the stand-ins model
+                    cty_ = ini[1][1][-2]
+                    def gocl(j_):
+                        if j_ == len(ini[2]):
+                            return go(i + 1, dict(env, **{s[1]: ("", "Client:" + cty_)}))
+                        if self.is_handle(ini[2][j_], env):
+                            return gocl(j_ + 1)
+                        return self.tr(ini[2][j_], env, lambda a_, t_: gocl(j_ + 1), ret)
+                    return gocl(0)
             if s[0] == "let" and getattr(self, "store", None):
                 ko = self.key_of(s[3], env)
                 if ko is not None:
@@ -1786,6 +1815,10 @@ class Gen:
                 if e[0] == "mcall" and self.strip(e[1])[0] == "var" and env.get(self.strip(e[1])[1], ("", ""))[1].startswith("Client:"):
                     cname = env[self.strip(e[1])[1]][1][7:] + "_" + e[2]
                     spec = getattr(self, "reads", {}).get(cname)
+                    if (self.cur_ns, cname) in self.sigs:
+                        # a declared stand-in of this namespace: called like a translated function
+                        s2_ = ("expr", ("call", ("var", cname), [("var", "e")] + list(e[3])))
+                        return self.tr_stmts([s2_] + list(stmts[i + 1:]), env, k_end, ret)
                     if not (isinstance(spec, tuple) and spec[0] == "fn"):
                         raise Unsupported(f"cross-contract call {cname} is not declared")
                     cargs = [a for a in e[3] if not self.is_handle(a, env)]
@@ -2384,6 +2417,29 @@ FILES_NFTF = [("NftF", "packages/tokens/src/non_fungible/storage.rs",
                ["balance", "owner_of", "get_approved", "is_approved_for_all", "transfer", "transfer_from", "approve", "approve_for_all",
                 "update", "approve_for_owner", "check_spender_approval", "increase_balance", "decrease_balance", "mint"]),
               ("NftF", "packages/tokens/src/non_fungible/extensions/burnable/storage.rs", ["burn", "burn_from"])]
+STORE_VST = {"VaultSt": {"Balance": (["Address"], "i128"), "TotalSupply": ([], "i128"),
+                         "Allowance": (["AllowanceKey"], "AllowanceData", "temp"),
+                         "AssetAddress": ([], "Address"), "VirtualDecimalsOffset": ([], "u32"),
+                         "Asset": ([], "OZ.Fungible.State", "raw")}}
+READS_VST = {"VaultSt": {"ledger_sequence": "u32", "min_temp_ttl": "u32", "max_ttl": "u32", "authorized": "addr2bool",
+                         "current_contract_address": "Address", "asset_auth": "Vec<Address>"}}
+FILES_VST = [("VaultSt", "packages/tokens/src/fungible/storage.rs",
+              ["total_supply", "balance", "allowance_data", "allowance", "set_allowance", "spend_allowance", "update"]),
+             ("VaultSt", "packages/tokens/src/vault/storage.rs",
+              ["query_asset", "total_assets", "get_decimals_offset", "convert_to_shares_with_rounding", "convert_to_assets_with_rounding",
+               "max_deposit", "max_mint", "max_withdraw", "max_redeem", "preview_deposit", "preview_mint", "preview_withdraw", "preview_redeem",
+               "deposit_internal", "withdraw_internal", "deposit", "mint", "withdraw", "redeem"])]
+_AST = "(⟨envr.min_temp_ttl, envr.max_ttl⟩ : OZ.Host.Cfg)"
+STUBS_VST = {
+    "Client_balance": ("VaultSt", "query_asset", ["Address"], "i128",
+        "def VaultSt.Client_balance (envr : VaultSt.Reads) (st : VaultSt.Store) (a : Nat) : Comp Int :=\n Comp.ok (st.Asset.bal a)\n"),
+    "Client_transfer": ("VaultSt", "query_asset", ["Address", "Address", "i128"], "()",
+        "def VaultSt.Client_transfer (envr : VaultSt.Reads) (st : VaultSt.Store) (from_ : Nat) (to_ : Nat) (amount : Int) : Comp (Unit × VaultSt.Store) :=\n"
+        " match OZ.Fungible.transfer st.Asset envr.asset_auth from_ to_ amount with\n | .ok a => Comp.ok ((), { st with Asset := a })\n | .error _ => Comp.panic\n"),
+    "Client_transfer_from": ("VaultSt", "query_asset", ["Address", "Address", "Address", "i128"], "()",
+        "def VaultSt.Client_transfer_from (envr : VaultSt.Reads) (st : VaultSt.Store) (spender : Nat) (from_ : Nat) (to_ : Nat) (amount : Int) : Comp (Unit × VaultSt.Store) :=\n"
+        f" match OZ.Fungible.transferFrom {_AST} st.Asset envr.asset_auth spender from_ to_ amount with\n | .ok a => Comp.ok ((), {{ st with Asset := a }})\n | .error _ => Comp.panic\n"),
+}
 STORE_RT = {"RoleTransfer": {"Pending": ([], "Address", "temp"), "Active": ([], "Address")}}
 READS_RT = {"RoleTransfer": {"ledger_sequence": "u32", "min_temp_ttl": "u32", "max_ttl": "u32", "authorized": "addr2bool"}}
 FILES_RT = [("RoleTransfer", "packages/access/src/role_transfer/storage.rs", ["transfer_role", "accept_transfer"])]
@@ -2458,7 +2514,7 @@ def deps(e, acc):
 
 def translate(repo, FILES=FILES, DEPS=(), imports=("OZ.Model.RustSem",), reads=None, structs=None, tymaps=None,
               store=None, impl_types=None, stubs=None, rename_types=None, key_params=None, fn_prefix=None,
-              allow_traits=(), penums=None, let_stubs=None):
+              allow_traits=(), penums=None, let_stubs=None, writer_stubs=()):
     """DEPS: files translated elsewhere whose signatures are needed (parsed, not emitted);
     reads: {namespace: {getter name: Rust type}} — the side-effect-free state getters (`Self::name(e)`)
     that become fields of the record `<namespace>.Reads` passed to every function of that namespace"""
@@ -2502,6 +2558,7 @@ def translate(repo, FILES=FILES, DEPS=(), imports=("OZ.Model.RustSem",), reads=N
         sigs[(sns, sn)] = (ptys_, rty_)
     reads_done = set()
     free_fns = {(ns, f[1]) for ns, rel, fns in parsed for f in fns if f[5] is None}
+    free_fns |= {(sns_, sn_) for sn_, (sns_, *_r) in (stubs or {}).items()}
     # functions that need a `fuel` argument: those with a `while`, and (transitively) their callers
     def has_while(e):
         if isinstance(e, tuple):
@@ -2535,6 +2592,7 @@ def translate(repo, FILES=FILES, DEPS=(), imports=("OZ.Model.RustSem",), reads=N
             return any(has_write(x) for x in e)
         return False
     writers = {(ns, f[1]) for ns, rel, fns in parsed for f in fns if ns in (store or {}) and has_write(f[4])}
+    writers |= {(sns_, sn_) for sn_, (sns_, *_r) in (stubs or {}).items() if sn_ in writer_stubs}
     changed = True
     while changed:
         changed = False
@@ -2588,9 +2646,16 @@ def translate(repo, FILES=FILES, DEPS=(), imports=("OZ.Model.RustSem",), reads=N
                 def vty(spec):
                     return f"(OZ.Host.Temp {g0.lean_ty(spec[1])})" if len(spec) > 2 and spec[2] == "temp" else g0.lean_ty(spec[1])
                 for cell, spec in store[ns].items():
+                    if len(spec) > 2 and spec[2] == "raw":
+                        # a cell holding a value of a HAND-WRITTEN Lean type (the state of a contract that is not
+                        # translated: only the declared stand-ins touch it)
+                        out.append(f"  {cell} : {spec[1]}")
+                        continue
                     out.append(f"  {cell} : {''.join(g0.lean_ty(t_) + ' → ' for t_ in spec[0])}Option {vty(spec)}")
                 out.append("")
                 for cell, spec in store[ns].items():
+                    if len(spec) > 2 and spec[2] == "raw":
+                        continue
                     atys, vt = spec[0], spec[1]
                     ks = " ".join(f"(k{j} : {g0.lean_ty(t_)})" for j, t_ in enumerate(atys))
                     if atys:
@@ -2953,6 +3018,13 @@ def main():
             txt = translate(repo, FILES_FT, imports=("OZ.Model.RustSemHost",), reads=READS_FT, structs=STRUCTS_FUNGIBLE, store=STORE_FT,
                             impl_types={"Base": "FungibleT"},
                             rename_types={"AllowanceData": "FungibleT.AllowanceData", "AllowanceKey": "FungibleT.AllowanceKey"})
+        elif "--vault-st" in sys.argv:
+            # the ASSET token is another contract: its state is a value of the hand-written Base-token model
+            # (OZ/Model/Fungible.lean) and `token::Client` calls are declared stand-ins on it (trusted base of C05)
+            txt = translate(repo, FILES_VST, DEPS=FILES, imports=("OZ.Gen.Math", "OZ.Model.RustSemHost", "OZ.Model.Fungible"),
+                            reads=READS_VST, structs=STRUCTS_FUNGIBLE, store=STORE_VST, impl_types={"Base": "VaultSt", "Vault": "VaultSt"},
+                            stubs=STUBS_VST, writer_stubs=("Client_transfer", "Client_transfer_from"),
+                            rename_types={"AllowanceData": "VaultSt.AllowanceData", "AllowanceKey": "VaultSt.AllowanceKey"})
         elif "--smart-account" in sys.argv:
             # HOLE (declared): the candidate list `context_rules` of `get_validated_context` (the `match` on the host's
             # Context object and `get_valid_context_rules`) is the function `valid_context_rules` of the reads record
